@@ -310,7 +310,9 @@ pub mod pipeline {
                     break;
                 }
                 let data = String::from_utf8_lossy(&line[..ct]);
-                if self.filter.matches(data.as_ref())
+                // the filter looks at the text of the line, not at its terminator
+                let text = data.strip_suffix('\n').unwrap_or(data.as_ref());
+                if self.filter.matches(text)
                     && !Pipeline::proc_preagg(Record::new(data), &mut preaggs, &tx)
                 {
                     break;
